@@ -37,7 +37,7 @@ class C09(Check):
     per_run_timeout = 240
     expected_probes = ["sim:sv", "sim:dm", "entry:simulate", "entry:run", "entry:steps", "feat:channel",
                        "feat:keyed-channel", "noise:constant", "noise:insertion", "noise:gate-like",
-                       "noise:with_noise-circuit", "noise:thermal", "noise:unitary-gate", "entry:sweep", "entry:mux-fdm", "feat:composite-noisy-gate", "feat:pauli-measure", "protocol:apply_mixture-checked", "protocol:apply_channel-checked", "order:spectator", "init:density-matrix", "init:vector", "draw:uniform-kraus", "draw:choice", "convert-checked",
+                       "noise:with_noise-circuit", "noise:thermal", "noise:unitary-gate", "noise:device", "entry:sweep", "entry:mux-fdm", "feat:composite-noisy-gate", "feat:pauli-measure", "protocol:apply_mixture-checked", "protocol:apply_channel-checked", "order:spectator", "init:density-matrix", "init:vector", "draw:uniform-kraus", "draw:choice", "convert-checked",
                        "feat:reset", "boundary:fallback-branch"]
 
     def setup(self) -> None:
@@ -178,7 +178,7 @@ class C09(Check):
         noise_bits = 0.0
         if use_noise_model:
             pr = [0.125, 0.25, 0.0625, 0.5][tape.draw(4, "noise-p")]
-            nk = tape.weighted([3, 2, 2, 2, 2, 1], "noise-kind")
+            nk = tape.weighted([3, 2, 2, 2, 2, 1, 2], "noise-kind")
             if nk == 0:
                 ch = [cirq.depolarize(pr), cirq.bit_flip(pr), cirq.amplitude_damp(pr), cirq.phase_damp(pr)][tape.draw(4, "noise-ch")]
                 noise = cirq.ConstantQubitNoiseModel(ch)
@@ -200,6 +200,12 @@ class C09(Check):
                 # coherent "noise": a unitary gate after every moment
                 noise = [cirq.X ** 0.125, cirq.Z ** 0.25, cirq.rx(0.3)][tape.draw(3, "unitary-noise")]
                 noise_kind = "unitary-gate"
+            elif nk == 6:
+                # device-derived: NoiseModelFromNoiseProperties over a SuperconductingQubitsNoiseProperties
+                # (thermal T1/Tphi noise + depolarising gate errors + readout errors before measurements,
+                # measurements split per qubit and recombined, PHYSICAL_GATE_TAG plumbing)
+                noise = _device_noise_model(cirq, tape, sorted(circuit.all_qubits()) or [g.qudits[0]])
+                noise_kind = "device"
             elif nk == 3:
                 ch = [cirq.bit_flip(pr), cirq.phase_damp(pr)][tape.draw(2, "noise-ch")]
                 noise = cirq.ConstantQubitNoiseModel(ch, prepend=True)
@@ -231,8 +237,20 @@ class C09(Check):
                 qubits_sorted = sorted(circuit.all_qubits())
             ref_circuit = cirq.Circuit(model.noisy_moments(circuit, qubits_sorted))
             ctx.probe("noise:" + noise_kind)
+            # a noise model adds noise around the circuit's operations; each of the circuit's own operations is
+            # still applied, once (tags aside), and per qubit in the original order
+            rest = [op.untagged for op in ref_circuit.all_operations()]
+            for q in qubits_sorted:
+                mine = [op.untagged for op in circuit.all_operations() if q in op.qubits]
+                theirs = [op for op in rest if q in op.qubits]
+                it = iter(theirs)
+                if not all(any(op == t for t in it) for op in mine):
+                    raise Violation(f"{P}-NOISE-MODEL-ALTERED-CIRCUIT",
+                                    f"the circuit produced by {noise!r} does not apply the circuit's own operations on "
+                                    f"{q} in order: circuit {mine!r}, noisy circuit {theirs!r}")
             # how much branching would the trajectory simulator see?
             for op in ref_circuit.all_operations():
+                op = op.untagged
                 if isinstance(op, cirq.ClassicallyControlledOperation):
                     op = op.without_classical_controls()
                 if getattr(op.gate, "_verif_composite_", False):
@@ -260,6 +278,7 @@ class C09(Check):
         ctx.probe("sim:" + kind)
         # cross-invariant on every channel in the circuit that is simulated
         for op in (ref_circuit or circuit).all_operations():
+            op = op.untagged
             if isinstance(op, cirq.ClassicallyControlledOperation):
                 op = op.without_classical_controls()
             if not cirq.has_unitary(op):
@@ -440,6 +459,55 @@ class C09(Check):
                       "noise": repr(noise)[:200] if noise is not None else None, "via_with_noise": with_noise_circuit,
                       "simulator": cfg.describe(), "entry": entry, "leaves_explored": n_leaves,
                       "features": sorted(g.features)}
+
+
+def _device_noise_model(cirq, tape, qubits):
+    one_q = {cirq.XPowGate, cirq.YPowGate, cirq.ZPowGate, cirq.HPowGate, cirq.PhasedXZGate, cirq.MatrixGate,
+             cirq.MeasurementGate, cirq.ResetChannel, cirq.IdentityGate}
+    sym2 = {cirq.CZPowGate, cirq.ISwapPowGate, cirq.SwapPowGate}
+    asym2 = {cirq.CXPowGate}
+
+    class Props(cirq.devices.SuperconductingQubitsNoiseProperties):
+        @classmethod
+        def single_qubit_gates(cls):
+            return one_q
+
+        @classmethod
+        def symmetric_two_qubit_gates(cls):
+            return sym2
+
+        @classmethod
+        def asymmetric_two_qubit_gates(cls):
+            return asym2
+
+    times = {cirq.ZPowGate: 0.0, cirq.XPowGate: 25.0, cirq.YPowGate: 25.0, cirq.HPowGate: 25.0,
+             cirq.PhasedXZGate: 25.0, cirq.MatrixGate: 25.0, cirq.IdentityGate: 25.0, cirq.CZPowGate: 32.0,
+             cirq.CXPowGate: 40.0, cirq.ISwapPowGate: 32.0, cirq.SwapPowGate: 50.0, cirq.MeasurementGate: 200.0,
+             cirq.ResetChannel: 150.0}
+    have_t1 = tape.chance(3, 4, "t1?")
+    t1 = {q: [2e3, 5e2, 1e4][tape.draw(3, "t1")] for q in qubits} if have_t1 else {}
+    tphi = {q: [3e3, 4e2, 2e4][tape.draw(3, "tphi")] for q in qubits} if have_t1 else {}
+    errs = {}
+    for q in qubits:
+        for gt in (cirq.XPowGate, cirq.HPowGate, cirq.ZPowGate):
+            if tape.chance(1, 2, "gate-error?"):
+                errs[cirq.OpIdentifier(gt, q)] = [0.05, 0.2, 1e-4][tape.draw(3, "p-error")]
+    for i, a in enumerate(qubits):
+        for b in qubits[i + 1:]:
+            for gt in (cirq.CZPowGate, cirq.CXPowGate):
+                if tape.chance(1, 3, "2q-error?"):
+                    p = [0.1, 0.3][tape.draw(2, "p-error")]
+                    errs[cirq.OpIdentifier(gt, a, b)] = p
+                    if gt in sym2 or tape.chance(1, 2, "reverse-too?"):
+                        errs[cirq.OpIdentifier(gt, b, a)] = p
+    if not have_t1:
+        # decoherence is subtracted from the Pauli error per qubit: needs T1/Tphi for every error entry
+        t1 = {q: 1e9 for q in qubits}
+        tphi = {q: 1e9 for q in qubits}
+    readout = {q: [[0.0625, 0.125], [0.25, 0.03125]][tape.draw(2, "readout")] for q in qubits
+               if tape.chance(1, 2, "readout-error?")}
+    props = Props(gate_times_ns=times, t1_ns=t1, tphi_ns=tphi, readout_errors=readout, gate_pauli_errors=errs)
+    return cirq.devices.NoiseModelFromNoiseProperties(props)
 
 
 CHECK = C09()
